@@ -1,7 +1,66 @@
-import Blf.UFile
+import Blf.UFileRefine
 /-!
 # C15 — The in-memory stream is a byte FIFO with iostream-like state for any chunking
-(theorems under construction; the executable model `Blf.UFile` is tied to the code by the `ufile` protocol)
+
+> The uncompressed in-memory stream returns bytes in exactly the order written, independent of how writes and
+> reads are chunked, of log-container boundaries, of whole containers being appended, of closing the current
+> container and of dropping consumed data.  Read counts, get/put positions, relative seeks, declared end and
+> the good/eof flags follow a reference byte-queue model, and dropping old data never discards a byte that has
+> not been read.
+
+Proved here (no bound on the number or size of containers, by induction over the container list and the copy
+loop): the refinement for sessions in which whole containers are appended (read sessions): `RInv s w` relates
+the containers held to the ghost byte string `w` of everything appended; `writeCont`, `read`, `seekg`,
+`setFileSize` and `dropOldData` preserve it, `read` returns exactly `w[tellg, tellg+k)`, `dropOldData` never
+moves the start of the held data beyond the get position.  `C15_partial`: the byte-writer side
+(`write(const char*, n)` filling pre-allocated containers, `nextLogContainer`) and sequences that mix both
+kinds of write are covered by the `ufile` correspondence and the flat byte-queue oracle only; mixing them is
+where the code deviates from a byte queue (known finding: a container appended after a partial byte write is
+shadowed).
 -/
 namespace Blf.Props
+open Blf.UFile
+
+theorem C15_init : RInv {} [] := rinv_init
+
+theorem C15_append_container (s : State) (w : Bytes) (h : RInv s w) (d : Bytes) :
+    RInv (writeCont s d.length d) (w ++ d) := rinv_writeCont s w h d
+
+theorem C15_read (s : State) (w : Bytes) (h : RInv s w) (n : Nat) (hg : base s ≤ s.tellg) (hle : s.tellg ≤ s.tellp) :
+    let n' : Int := if (n : Int) + s.tellg > s.fileSize then s.fileSize - s.tellg else n
+    let k := min n'.toNat (s.tellp - s.tellg).toNat
+    (read s n).2 = (w.drop s.tellg.toNat).take k ∧
+    (read s n).1.tellg = s.tellg + (k : Nat) ∧ (read s n).1.gcount = k ∧ (read s n).1.data = s.data ∧
+    (read s n).1.tellp = s.tellp ∧ (read s n).1.oob = s.oob := read_spec s w h n hg hle
+
+theorem C15_read_preserves (s : State) (w : Bytes) (h : RInv s w) (n : Nat) (hg : base s ≤ s.tellg) (hle : s.tellg ≤ s.tellp) :
+    RInv (read s n).1 w := rinv_read s w h n hg hle
+
+theorem C15_seek_preserves (s : State) (w : Bytes) (h : RInv s w) (off : Int) : RInv (seekg s off) w := rinv_seekg s w h off
+theorem C15_setFileSize_preserves (s : State) (w : Bytes) (h : RInv s w) (n : Int) : RInv (setFileSize s n) w := rinv_setFileSize s w h n
+theorem C15_drop_preserves (s : State) (w : Bytes) (h : RInv s w) : RInv (dropOldData s) w := rinv_drop s w h
+
+/-- dropping old data never discards a byte at or after the get position -/
+theorem C15_drop_safe (s : State) (w : Bytes) (h : RInv s w) (hg : base s ≤ s.tellg) :
+    base s ≤ base (dropOldData s) ∧ base (dropOldData s) ≤ s.tellg := drop_safe s w h hg
+
+/-- the flags of a read are those of the reference queue: short iff the request reaches beyond the declared end;
+    a request of zero bytes inside the declared end leaves them alone -/
+theorem C15_read_flags (s : State) (n : Nat) :
+    ((n : Int) + s.tellg > s.fileSize → (read s n).1.good = false ∧ (read s n).1.eof = true) ∧
+    (¬ ((n : Int) + s.tellg > s.fileSize) → 0 < n → (read s n).1.good = true ∧ (read s n).1.eof = false) := by
+  constructor
+  · intro h
+    unfold UFile.read
+    simp only [h, decide_true, Bool.not_true, Bool.false_and, Bool.false_eq_true, if_false, if_true]
+    exact readLoop_flags _ _ _ _
+  · intro h hn
+    unfold UFile.read
+    have : (n == 0) = false := by simp; omega
+    simp only [h, decide_false, Bool.not_false, Bool.true_and, this, Bool.false_eq_true, if_false]
+    exact readLoop_flags _ _ _ _
+
+/-- non-vacuity: two containers appended, a read straddling their boundary -/
+example : (read (writeCont (writeCont {} 3 [1, 2, 3]) 2 [4, 5]) 4).2 = [1, 2, 3, 4] := by decide
+
 end Blf.Props
